@@ -10,6 +10,8 @@ From DS Require Import Base.ZMat Base.SGDefs Model.GroupCheck Model.C05_QBase Mo
 From DS Require Gen.SGTables Proofs.C03All.
 From DS Require Import Proofs.C05_RunSpec Proofs.C05_QLemmas Proofs.C05_PosSound Proofs.C05_Example Proofs.C05_Orbit.
 From DS Require Import Model.C06_Query Gen.C06_QueryGuards Model.C06_QueryMethods Proofs.C06_QuerySound Proofs.C06_QueryGuards.
+From DS Require Import Proofs.C05_DimensionInst.
+From DS Require Import Model.C05_SymTrans Proofs.C05_SymTransSound.
 Import ListNotations.
 Open Scope Q_scope.
 
@@ -135,3 +137,30 @@ Theorem C05_query_example :
   let sites := [Q3 0 0 0; Q3 (1 # 2) (1 # 2) 0] in let q := Q3 (15003 # 10000) (-4998 # 10000) (1 # 10000) in
   site_query (1 # 1000) sites q = Some 1%nat /\ site_query (1 # 100000) sites q = None /\ eq_index sites q = Some 1%nat.
 Proof. exact site_query_example. Qed.
+
+(* ---- the number of parameters is THE dimension of the free space: any independent family of vectors fixed by the
+   site symmetry has at most that many members, and any basis of the fixed space has exactly that many
+   (Proofs/C05_Dimension.v: more vectors than coordinates are linearly dependent) ---- *)
+Theorem C05_parameter_count_is_the_dimension : forall G c, pos_cert_ok G c = true ->
+  let S := stab G (pc_x c) in
+  forall M : list q3, (forall m, In m M -> Fixed S m) ->
+    (forall a, List.length a = List.length M -> q3eq (lin M a) q3zero -> Forall (fun x => x == 0) a) ->
+    (List.length M <= List.length (pc_p0 c))%nat /\
+    ((forall v, Fixed S v -> exists a, List.length a = List.length M /\ q3eq v (lin M a)) -> List.length M = List.length (pc_p0 c)).
+Proof. exact pos_dimension. Qed.
+Print Assumptions C05_parameter_count_is_the_dimension.
+
+(* ---- custom symbols, positionFormulas(xyzsymbols):  re.sub(r"\b[xyz]\d+", ...)
+   (scanner model Model/C05_SymTrans.v, compared with the real method on every formula of the long listings).
+   A formula that consists of text without start letters and of parameter symbols (start letter + at least 1 digits, preceded
+   by a non-word character and followed by a non-digit) is translated by replacing exactly its parameter symbols, for ANY
+   user dictionary - in particular when one standard symbol is a prefix of another (x1 / x10). ---- *)
+Theorem C05_custom_symbol_translation : forall tr l, wf is_xyz 1 false l ->
+  translate_xyz tr (render l) = render (map (rename1 tr) l).
+Proof. exact (translate_render is_xyz 1). Qed.
+Print Assumptions C05_custom_symbol_translation.
+
+Theorem C05_custom_symbol_example :
+  wf is_xyz 1 false ex_chunks /\ render ex_chunks = ex_formula /\ translate_xyz ex_dict ex_formula = ex_translated.
+(* ex_formula = "+2*x10 -x1 +0.5", dictionary x1 -> sab, x10 -> sak, ex_translated = "+2*sak -sab +0.5" *)
+Proof. exact translate_example. Qed.
